@@ -35,7 +35,7 @@ FDOPS1 = ('CF', 'CL', 'W', 'R', 'F', 'D', 'K')
 # script generator
 # ----------------------------------------------------------------------------------------------------
 class LoopGen:
-    def __init__(self, rng, mode, allow_stop=False, allow_close=True, size=1.0, free=False):
+    def __init__(self, rng, mode, allow_stop=False, allow_close=True, size=1.0, free=False, batch=False):
         self.rng, self.mode = rng, mode
         self.nfd = rng.choice([1, 2, 2, 3, 3, 4])
         # descriptor discipline (keeps generated scripts out of the input class of finding 2, docs/C17.md): a descriptor of
@@ -45,6 +45,7 @@ class LoopGen:
         # one timer API per script: slot ids of set_timer_event are recycled (and pseudo-random), so a stale raw id could hit a
         # deadline_timer whose id the harness cannot see
         self.tmode = rng.choice('TU')
+        self.batch = batch        # batch=True: handlers of descriptor waits have no bodies (their relative order is not fixed)
         self.free = free          # free=True: no discipline (finding-2 class allowed)
         self.k = 0
         self.bodies = []          # (k, ops)
@@ -75,7 +76,8 @@ class LoopGen:
             self.used.add((f, d))
         k = self.new()
         out = ['I' if d == 'i' else 'O', str(k), str(f)]
-        self.maybe_body(k, depth, chain=(f, d))
+        if not self.batch:
+            self.maybe_body(k, depth, chain=(f, d))
         return out
 
     def ops(self, n, depth, chain=None):
@@ -141,10 +143,14 @@ class LoopGen:
 def gen_loop_case(rng, reactor=None, mode=None, stop=None):
     mode = mode or ('s' if rng.random() < 0.75 else 'd')
     stop = (rng.random() < 0.15) if stop is None else stop
-    g = LoopGen(rng, mode, allow_stop=stop, size=rng.choice([0.5, 1.0, 1.0, 1.5]))
+    batch = rng.random() < 0.25
+    g = LoopGen(rng, mode, allow_stop=stop, size=rng.choice([0.5, 1.0, 1.0, 1.5]), batch=batch)
+    if batch:
+        g.nfd = rng.choice([2, 3, 4, 4, 6, 8])
+        g.cls = [rng.choice('AB') for _ in range(g.nfd)]
     toks = g.script()
     reactor = reactor or rng.choice('eps')
-    pick = rng.choice('lh')
+    pick = 'a' if batch else rng.choice('lh')
     return 'loop %s %s%s %d %s' % (reactor, pick, mode, g.nfd, ' '.join(toks))
 
 
@@ -205,8 +211,8 @@ def parse_list(s):
 def oracle(case, out):
     c = case.split()
     op = c[0]
-    if out.startswith('<crash'):
-        return ('crash-' + op, 'harness died on this input: ' + out)
+    if out.startswith('<crash') or out == '<missing>':
+        return ('crash-' + op, 'harness died (crash, or the per-case watchdog fired) on or before this input: ' + out)
     if op == 'loop':
         return oracle_loop(c, out)
     if op == 'pool':
@@ -272,7 +278,7 @@ def oracle_pool(c, out):
 
 
 def oracle_loop(c, out):
-    m = re.fullmatch(r'loop sub=(\S+) log=(\S+) flags=(\S+)', out)
+    m = re.fullmatch(r'loop sub=(\S+) log=(\S+) flags=(\S+) mode=\S+', out)
     if not m:
         return ('bad-output-loop', 'unexpected harness answer ' + out[:200])
     subs, log, flags = parse_list(m.group(1)), parse_list(m.group(2)), parse_list(m.group(3))
@@ -410,9 +416,30 @@ def run(ctx):
     ctx.coverage['exhaustive'] = False
     ctx.coverage['reactors'] = ['epoll', 'poll', 'select']
 
+    def canon_batch(line):
+        # batch mode (pick letter a): run_one shuffles the events of one poll (randomize_events), so completions of
+        # descriptor waits that are adjacent in the log and carry the same time are compared as a set
+        m = re.fullmatch(r'(loop sub=(\S+) log=)(\S+)( flags=\S+ mode=a\S*)', line)
+        if not m or m.group(3) == '-':
+            return line
+        io = set(x.split(':')[0] for x in m.group(2).split(',') if x.split(':')[1][0] in 'io') if m.group(2) != '-' else set()
+        out, run = [], []
+        for e in m.group(3).split(','):
+            k, t = e.split(':')[0], e.split('@')[1]
+            if k in io and (not run or run[-1][1] == t):
+                run.append((e, t))
+            else:
+                out += sorted(x[0] for x in run)
+                run = [(e, t)] if k in io else []
+                if k not in io:
+                    out.append(e)
+        out += sorted(x[0] for x in run)
+        return m.group(1) + ','.join(out) + m.group(4)
+
     def canon_case(c, a):
+        a = canon_batch(a)
         # finding 1 replays: the model (faithful to the bookkeeping, which knows no descriptor numbers) does not lose the wake-up
         if c.split()[2][2:3] == 'r':
             return a.replace('flags=LOSTWAKE', 'flags=-')
         return a
-    vlib.differential(ctx, cases, exe, mexe, oracle, nontrivial, classify, canon_case=canon_case)
+    vlib.differential(ctx, cases, exe, mexe, oracle, nontrivial, classify, canon_case=canon_case, canon_model=canon_batch)
